@@ -163,6 +163,8 @@ func verifHosts(l *roundRobinLoadBalancer) []*Host { return l.hosts.Load().([]*H
 // Only errors are sent on a session's failure channel (checked at the sends, assumed at the receive).
 //@ type proxycore.Session
 //@   chan failed open: v != nil
+// what is filed in the pool table is a pool (defect #23 was a nil pool filed there)
+//@   syncmap pools: typeis(v, *connPool) && as(v, *connPool) != nil && as(v, *connPool).connsMu != nil [C17]
 
 //@ func proxycore.Cluster.Listen [C07]
 //@   requires c != nil
@@ -189,12 +191,14 @@ func verifHosts(l *roundRobinLoadBalancer) []*Host { return l.hosts.Load().([]*H
 
 //@ func proxycore.connPool.leastBusyConn [C17, C18]
 //@   requires p != nil && p.connsMu != nil
+//@   ensures connOK(result)
 //@   modifies nothing
 
-// The lookup in the pool table (a sync.Map, opaque to the engine): nil, or a connection created by
-// connPool.connect (ConnectClient's postcondition). Assumed; its writers are checked to file only pools.
-//@ func proxycore.Session.leastBusyConn
-//@   trusted
+// The lookup in the pool table: nil, or a connection created by connPool.connect (ConnectClient's
+// postcondition). The table's contents are typed by the 'syncmap pools' clause of Session: its writers
+// are checked to file only pools, its readers may rely on it.
+//@ func proxycore.Session.leastBusyConn [C17, C01]
+//@   requires s != nil && host != nil
 //@   ensures connOK(result)
 //@   modifies nothing
 
@@ -573,6 +577,8 @@ func verifHosts(l *roundRobinLoadBalancer) []*Host { return l.hosts.Load().([]*H
 //@ type proxycore.connPool
 //@   immutable: ctx, config, logger, preparedCache, cancel, connsMu
 //@   guarded_by connsMu: conns
+// every slot of a pool is empty or holds a connection created by connPool.connect
+//@   invariant slots-are-connections: forall(k, 0, len(self.conns), connOK(self.conns[k])) [C17]
 //@ type proxycore.SessionConfig
 //@   immutable: ReconnectPolicy, NumConns, Keyspace, Version, Auth, PreparedCache, ConnectTimeout, HeartBeatInterval, IdleTimeout, Logger, Compression
 //@ type proxycore.connPoolConfig
@@ -585,7 +591,7 @@ func verifHosts(l *roundRobinLoadBalancer) []*Host { return l.hosts.Load().([]*H
 
 //@ func proxycore.connectPoolNoFail [C08]
 //@   requires config.ReconnectPolicy != nil && config.NumConns >= 0
-//@   ensures result != nil && fresh(result) && result.preparedCache == config.PreparedCache && result.config.Version == config.Version && result.config.Keyspace == config.Keyspace && result.config.Compression == config.Compression
+//@   ensures result != nil && fresh(result) && result.connsMu != nil && result.preparedCache == config.PreparedCache && result.config.Version == config.Version && result.config.Keyspace == config.Keyspace && result.config.Compression == config.Compression
 //@   modifies nothing
 
 //@ func proxycore.ConnectClient [C08]
@@ -623,6 +629,7 @@ func verifHosts(l *roundRobinLoadBalancer) []*Host { return l.hosts.Load().([]*H
 //@   before proxycore.ClientConn.SetKeyspace#1 set $ccKsTried = true; $ccKs = arg3
 //@   after proxycore.ClientConn.SetKeyspace#1 set $ccKsOK = (result == nil)
 //@   ensures cache: err == nil ==> conn != nil && $ccCache == p.preparedCache
+//@   ensures usable: err == nil ==> connOK(conn)
 //@   ensures codec: err == nil ==> $ccCompression == p.config.Compression && conn.compression == p.config.Compression
 //@   ensures handshake: err == nil ==> $ccHsDone && $ccHsVersion == p.config.Version && $ccHsGot == p.config.Version && $ccHsCompressionOK
 //@   ensures keyspace: err == nil && p.config.Keyspace != "" ==> $ccKsTried && $ccKsOK && $ccKs == p.config.Keyspace
@@ -909,7 +916,7 @@ func verifHosts(l *roundRobinLoadBalancer) []*Host { return l.hosts.Load().([]*H
 
 //@ func proxycore.connectPool
 //@   trusted
-//@   ensures result1 == nil ==> result0 != nil
+//@   ensures result1 == nil ==> result0 != nil && result0.connsMu != nil
 //@   modifies nothing
 
 // the goroutine started per host of the bootstrap event
